@@ -450,6 +450,11 @@ def rule_set_cursor(col, facts):
             if e[0] == "call" and e[1].endswith("cmp::Ord::min") and any(strip_casts(x)[0] == "call" and strip_casts(x)[1].endswith("::len") for x in e[2]):
                 col.ok(R, key, "index is min(len, _)", loc)
                 continue
+            if any(last_seg(c2[1]) == "count" for c2 in expr_calls(e)) and any(last_seg(c2[1]) in ("take_while", "position", "skip_while") for c2 in expr_calls(e)):
+                # `start + tail.iter().take_while(is_sep).count()` with `tail = buffer[start..]`: bounded by the length
+                # of the sub-slice it counts in - an argument about iterator adaptors this rule does not make
+                col.assumed("not-applied", "GRD-cursor:%s" % key, "set_cursor(%s): the index is a position plus the number of elements counted in a sub-slice; its bound is not decided by this rule" % show(e)[:100], loc)
+                continue
             col.bad(R, key, "set_cursor(%s): no recognised bound on the index" % show(e), loc)
     return n
 
